@@ -200,3 +200,23 @@
 ; the position without its two move counters (legality and validity do not depend on them: lemma clocksIrrelevant)
 (define-fun noClocks ((p Pos)) Pos
   (mkPos (pP p) (pN p) (pB p) (pR p) (pQ p) (pK p) (cW p) (cB p) (stm p) (ep p) (cas p) #x00 #x0000000000000000))
+
+; a witness move from f to t: promotes to a queen when a pawn reaches its last rank
+(define-fun witMove ((p Pos) (f Sq) (t Sq)) Mv
+  (ite (and (= (pieceAt p f) #x01) (lastRank (stm p) t))
+       (concat #b0101 ((_ extract 5 0) f) ((_ extract 5 0) t))
+       (mkMv f t)))
+
+; engine-normalised e.p. state (quantifier of C09): a target is recorded only if some e.p. capture is legal.
+; The capturing pawn stands on the rank next to the target, on an adjacent file (two candidate squares).
+(define-fun epCand ((p Pos) (left Bool)) Sq
+  (let ((t (ep p)))
+    (ite (= (stm p) #x00) (ite left (bvsub t #x09) (bvsub t #x07)) (ite left (bvadd t #x07) (bvadd t #x09)))))
+(define-fun epCandOK ((p Pos) (left Bool)) Bool
+  (let ((f (epCand p left)) (t (ep p)))
+    (and (ite left (not (= (fileOf t) #x00)) (not (= (fileOf t) #x07)))
+         (= (pieceAt p f) #x01) (has (colSet p (stm p)) f) (legal p (mkMv f t)))))
+(define-fun epNormal ((p Pos)) Bool (or (= (ep p) #x00) (epCandOK p true) (epCandOK p false)))
+
+; no legal move at all (used only in goals of the form "some move is legal")
+(define-fun noLegalMove ((p Pos)) Bool (forall ((m Mv)) (not (legal p m))))
